@@ -190,7 +190,7 @@ def get_param_names_from_signature(func: Callable, nr_of_params: int) -> List:
 FITTERS = {
     lit.LIN: lambda x, a, b: a * x + b,
     lit.QUAD: lambda x, a, b, c: a * x ** 2 + b * x + c,
-    lit.POLY: lambda x, *coeffs: functools.reduce(lambda a, b: a * x + b, reversed(coeffs)),
+    lit.POLY: lambda x, *coeffs: functools.reduce(lambda a, b: a * x + b, coeffs),
     lit.EXPO: lambda x, c, a: c * op.exp(-a * x),
     lit.GAUSS: lambda x, norm, mean, std: norm / op.sqrt(
         2 * op.pi * std ** 2) * op.exp(-1 / 2 * (x - mean) ** 2 / std ** 2)
